@@ -122,7 +122,7 @@ pub fn subs() -> Vec<Sub> {
 }
 
 pub fn run(env: &mut Env) -> RunResult {
-    let n = env.tier.sel(3_000, 50_000);
+    let n = env.tier.sel(15_000, 300_000);
     env.run_tapes(SUB_V3, n, 96)?;
     env.run_tapes(SUB_V5, n * 2, 200)?;
     env.run_tapes(SUB_T3, n, 96)?;
